@@ -482,6 +482,9 @@ func genScens(c *hx.Ctx) []Scen {
 	reps := c.Scale(2, 12)
 	for rep := 0; rep < reps; rep++ {
 		for i, v := range cat {
+			if !c.Thorough && rep == 1 && i%2 == int(c.Seed%2) {
+				continue // quick tier: the catalogue once in full and half of it a second time
+			}
 			if s, ok := genOne(c, v, i+rep); ok {
 				out = append(out, s)
 			}
